@@ -98,6 +98,42 @@ example : status [(b!"KIND", .str b!"AdmissionReview"), (b!"apiVersion", .str b!
     status [(b!"request", .obj true), (b!"request", .null)] = 400 ∧
     status [(b!"request", .null), (b!"request", .obj true)] = 200 := by decide
 
+open PSA.Review in
+/-- **The two layers composed**: screening (empty body, size, content type) over the document model. For a body that is a JSON
+    object, the handler's status is 400 for an empty body, 413 at or over the limit, 400 for another content type, and the
+    document's own status otherwise — so an answer of 200 needs all of: a body, under the limit, `application/json`, a well-formed v1
+    review with a request. -/
+def handlerStatus (maxSize : Nat) (empty : Bool) (size : Nat) (ct : Str) (doc : Top) : Nat :=
+  classify maxSize empty size ct ((detectKind doc).isSome && !typeError doc) (detectKind doc == some (dGroup, dVersion, dKind)) (hasRequest doc)
+
+open PSA.Review in
+theorem C16_handler_status (maxSize : Nat) (empty : Bool) (size : Nat) (ct : Str) (doc : Top) :
+    handlerStatus maxSize empty size ct doc =
+      if empty then 400 else if size ≥ maxSize then 413 else if ct ≠ b!"application/json" then 400 else status doc := by
+  unfold handlerStatus classify status
+  cases hd : detectKind doc with
+  | none => simp
+  | some gvk =>
+    by_cases hg : gvk = (dGroup, dVersion, dKind)
+    · subst hg
+      cases typeError doc <;> cases hasRequest doc <;> simp
+    · have : (some gvk == some (dGroup, dVersion, dKind)) = false := by simp [hg]
+      simp [this, hg]
+
+open PSA.Review in
+theorem C16_handler_200_iff (maxSize : Nat) (empty : Bool) (size : Nat) (ct : Str) (doc : Top) :
+    handlerStatus maxSize empty size ct doc = 200 ↔
+      empty = false ∧ size < maxSize ∧ ct = b!"application/json" ∧ status doc = 200 := by
+  rw [C16_handler_status]
+  by_cases he : empty = true
+  · simp [he]
+  · have he' : empty = false := by cases empty <;> simp_all
+    by_cases hs : size ≥ maxSize
+    · simp [he', hs]; omega
+    · by_cases hc : ct = b!"application/json"
+      · simp [he', hs, hc]; omega
+      · simp [he', hs, hc]
+
 /-- tie obligation (F7): the size limit is 3 MiB -/
 theorem C16_limit : Generated.maxRequestSize = 3 * 1024 * 1024 := by decide
 
@@ -113,4 +149,6 @@ theorem C16_limit : Generated.maxRequestSize = 3 * 1024 * 1024 := by decide
 #print axioms C16_review_else_400
 #print axioms C16_review_needs_request
 #print axioms C16_review_non_v1
+#print axioms C16_handler_status
+#print axioms C16_handler_200_iff
 end PSA.Props
